@@ -22,10 +22,11 @@ GATE_RE = re.compile(r"^check_(\w+)_enabled$")
 FEATURE_THINGS = {"check_lists_enabled": "Lists", "check_function_tensors_enabled": "Function tensors",
                   "check_capturing_closures_enabled": "Capturing closures", "check_modifiers_enabled": "Modifiers"}
 PROGRAMS = {
-    "check_lists_enabled": ["f_list", "f_list_chk", "f_listcomp", "f_listty"],
-    "check_function_tensors_enabled": ["f_tensor", "f_tensor_chk"],
-    "check_capturing_closures_enabled": ["f_closure", "f_closure2"],
-    "check_modifiers_enabled": ["f_mod", "f_mod_ctrl"],
+    "check_lists_enabled": ["f_list", "f_list_chk", "f_listcomp", "f_listty", "f_list_nested", "f_list_ret", "f_list_arg"],
+    "check_function_tensors_enabled": ["f_tensor", "f_tensor_chk", "f_tensor3", "f_tensor_local"],
+    "check_capturing_closures_enabled": ["f_closure", "f_closure2", "f_clos_callable", "f_clos_funlocal", "f_clos_returned",
+                                         "f_clos_struct", "f_clos_mixed", "f_clos_float"],
+    "check_modifiers_enabled": ["f_mod", "f_mod_ctrl", "f_mod_power", "f_mod_multi", "f_mod_nested"],
 }
 
 
